@@ -892,6 +892,9 @@ func (fx *FnCtx) ret(x *ssa.Return) {
 		results = append(results, Val{T: fx.val(r), GoT: sig.Results().At(i).Type()})
 	}
 	for i, c := range fx.fc.Ensures {
+		if c.Assumed != "" {
+			continue // assumed postcondition: used by callers, listed as an assumption, not checked here
+		}
 		env := fx.env(fx.cur)
 		env.results = results
 		// in postconditions, parameter names denote entry values
